@@ -18,4 +18,4 @@ job() {
   git -C /repo worktree remove --force "$W/wt" 2>/dev/null; rm -rf "$W"
 }
 export -f job
-printf '%s\n' "$@" | xargs -P "$J" -I{} bash -c 'job {}'
+printf '%s\n' "$@" | xargs -P "$J" -I{} bash -c 'job "$1"' _ {}
